@@ -383,3 +383,70 @@ Proof.
   destruct (receipt_is_request_or_future _ h t org R Hr) as [[Hh Hd]|H]; [right|now left].
   now apply request_window.
 Qed.
+
+Theorem receipt_window_run_holds : receipt_window_run_statement.
+Proof. intros ops h t org Hok Hr. exact (receipt_window_run ops h t org Hok Hr). Qed.
+
+(* ---------------- the two per-op facts, in exported form ---------------- *)
+(* (a) a tagged request that a task holds after an op and did not hold before was placed by a delivery run of its
+   origin: the origin is cancelled and visible from the task's current scope, before or after the op *)
+Theorem request_only_by_visible_delivery a o t org :
+  reach_ok a -> op_ok a o = true -> ~ In t (aff a o) ->
+  Held (fst (step a o)) t org -> Held a t org \/ OC a t org \/ OC (fst (step a o)) t org.
+Proof.
+  intros R Hok Hn Hh. pose proof (W_step a o R (reach_run a R) Hok) as W.
+  destruct (w_h _ _ _ _ _ _ _ W (TO_reach a R) (reach_k a R) t org Hn Hh) as [A|[[_ A]|[_ A]]]; auto.
+Qed.
+
+(* ... and the tasks an op affects directly: the acting / resumed task holds no request afterwards (or the op was
+   rejected and changed nothing), a task it creates holds none or one justified in the state after the op *)
+Theorem request_of_affected_task a o t org :
+  reach_ok a -> op_ok a o = true -> MP a -> In t (aff a o) ->
+  Held (fst (step a o)) t org -> k_done (tasks (fst (step a o)) t) = None ->
+  Same a (fst (step a o)) \/ OC (fst (step a o)) t org.
+Proof.
+  intros R Hok M Hin Hh Hd.
+  destruct (in_dec Nat.eq_dec t (aff a o)) as [_|Hn]; [|contradiction].
+  assert (HJ : Held a t org -> k_done (tasks a t) = None -> t < ntask a -> True) by auto.
+  pose proof (reach_run a R) as Hr.
+  unfold aff in Hin. destruct (actor o) as [u|] eqn:Ea.
+  - destruct Hin as [<-|Hin].
+    + destruct (own_step a o u R Hr Hok M (or_introl Ea)) as [S|N]; [now left|now elim (N org)].
+    + assert (Eo : exists g, (o = ASpawn u g \/ o = AStart u g) /\ group_active a g = true /\ t = ntask a).
+      { destruct o; cbn [uo] in Hin; try (destruct Hin; fail); cbn [actor] in Ea; injection Ea as ->;
+          destruct (group_active a g) eqn:Eg; try (destruct Hin; fail); destruct Hin as [<-|[]]; exists g; auto. }
+      destruct Eo as (g & Ho & Hg & ->). destruct (idle a u) eqn:Ei.
+      * right. now apply (child_step a u g o R Hr Ei Ho Hg).
+      * left. unfold step. rewrite Ea, Ei. cbn [negb fst]. repeat split; reflexivity.
+  - destruct o; cbn [actor] in Ea; try discriminate; try (destruct Hin; fail).
+    + destruct Hin as [<-|[]]. now elim (root_step a org).
+    + destruct h as [u|u f|c|u|f tm|c tm]; try (destruct Hin; fail); destruct Hin as [<-|[]].
+      * destruct (own_step a _ u R Hr Hok M (or_intror (or_introl eq_refl))) as [S|N]; [now left|now elim (N org)].
+      * destruct (own_step a _ u R Hr Hok M (or_intror (or_intror (ex_intro _ f eq_refl)))) as [S|N];
+          [now left|now elim (N org)].
+      * destruct (existsb (handle_eqb (HTaskDone u)) (ready a)) eqn:Ee.
+        -- exfalso. assert (Hin : In (HTaskDone u) (ready a)) by now apply existsb_handle.
+           destruct (GroupInv2.k_td _ (reach_gk a R) u Hin) as [Hdn _]. apply Hdn.
+           rewrite (step_run_any a _ Hin) in Hd. cbn [fst] in Hd. rewrite td_done in Hd. exact Hd.
+        -- left. cbn [step actor]. unfold run_handle. rewrite Ee. cbn [negb fst]. repeat split; reflexivity.
+Qed.
+
+(* (b) a task that an op does not affect keeps its record up to the cancel counter and the request flag (so its
+   current scope, its wait and its outcome), the parent link of every entered scope is unchanged, and no scope is
+   un-cancelled *)
+Theorem suspended_task_frame a o t :
+  reach_ok a -> op_ok a o = true -> t < ntask a -> ~ In t (aff a o) ->
+  tk_core (tasks (fst (step a o)) t) = tk_core (tasks a t) /\
+  (forall y, s_active (scopes a y) = true -> s_parent (scopes (fst (step a o)) y) = s_parent (scopes a y)) /\
+  (forall y, y < nscope a -> s_cancelled (scopes a y) = true -> s_cancelled (scopes (fst (step a o)) y) = true).
+Proof. intros R Hok At Hn. exact (frame_step t a o R Hok At Hn). Qed.
+
+(* the invariant behind (a): a recorded request and a pending wait exclude each other, in every reachable state *)
+Theorem reach_mp ops : ops_ok init ops = true -> MP (final step init ops).
+Proof. intros Hok. apply (J_all ops Hok). Qed.
+
+Theorem request_excludes_pending_wait (ops : list op) (t : tid) (f : fid) :
+  ops_ok init ops = true ->
+  k_must (tasks (final step init ops) t) = true -> k_waiter (tasks (final step init ops) t) = Some f ->
+  f_st (futs (final step init ops) f) <> FPend.
+Proof. intros H. exact (reach_mp ops H t f). Qed.
